@@ -3,6 +3,8 @@ import ExponaxModel.Proofs.WaveAlgebra
 import ExponaxModel.Proofs.DFT
 import ExponaxModel.Proofs.C2RIsometry
 import ExponaxModel.Proofs.StepperSymbols
+import ExponaxModel.Proofs.WaveWholeNyquist
+import ExponaxModel.Proofs.SmallGapsSymbols
 /-
 C11 — dissipative and dispersive linear steppers never amplify any state.
 Per-mode bounds on the regenerated propagator + sign of the documented symbols + Parseval (half layout).
@@ -182,5 +184,152 @@ theorem C11_generated_symbol_signs (c : Cfg ℂ) (s : ℝ) (hs : c.s = (s : ℂ)
    HyperDiffusion_linear_operator_re_nonpos_kappa c s hs h μ mix hμ⟩
 
 example : (0 : ℝ) ≤ 1e6 ∧ ((-3 : ℂ)).re ≤ 0 := by norm_num
+
+
+/-! ### wave energy in physical space: Σ v² + c² Σ |∇h|² (spectral gradient) is conserved by the whole step on every real
+Nyquist-free pair of states and on every real state of an odd grid, over whole rollouts; with Nyquist content on an even
+grid it is NOT (proved counterexample: the spectral derivative of the Nyquist mode is 0 while the stepper rotates it) -/
+
+open Exponax.WaveWhole in
+theorem C11_wave_energy_whole_state :
+    ∀ (D N : ℕ),
+      0 < D →
+        0 < N →
+          ∀ (c L t : ℝ),
+            c ≠ 0 →
+              0 < L →
+                ∀ (u₀ u₁ : Array ℂ),
+                  RealBL D N u₀ →
+                    RealBL D N u₁ → waveEnergy D N L c (waveStep D N ↑L ↑t ↑c #[u₀, u₁]) = waveEnergy D N L c #[u₀, u₁] :=
+  @Exponax.WaveWhole.waveStep_energy_bandLimited
+
+open Exponax.WaveWhole in
+theorem C11_wave_energy_rollout :
+    ∀ (D N : ℕ),
+      0 < D →
+        0 < N →
+          ∀ (c L t : ℝ),
+            c ≠ 0 →
+              0 < L →
+                ∀ (u₀ u₁ : Array ℂ),
+                  RealBL D N u₀ →
+                    RealBL D N u₁ →
+                      ∀ (n : ℕ), waveEnergy D N L c ((waveStep D N ↑L ↑t ↑c)^[n] #[u₀, u₁]) = waveEnergy D N L c #[u₀, u₁] :=
+  @Exponax.WaveWhole.waveStep_energy_iterate
+
+open Exponax.WaveWhole in
+theorem C11_wave_energy_odd_grid :
+    ∀ (D N : ℕ),
+      0 < D →
+        N % 2 = 1 →
+          ∀ (c L t : ℝ),
+            c ≠ 0 →
+              0 < L →
+                ∀ (u₀ u₁ : Array ℂ),
+                  u₀.size = N ^ D →
+                    u₁.size = N ^ D →
+                      (∀ j < N ^ D, (u₀.getD j 0).im = 0) →
+                        (∀ j < N ^ D, (u₁.getD j 0).im = 0) →
+                          waveEnergy D N L c (waveStep D N ↑L ↑t ↑c #[u₀, u₁]) = waveEnergy D N L c #[u₀, u₁] :=
+  @Exponax.WaveWhole.waveStep_energy_odd
+
+open Exponax.WaveWhole in
+theorem C11_wave_energy_nyquist_counterexample :
+    ∀ (c L t : ℝ),
+      c ≠ 0 →
+        0 < L →
+          Real.sin (waveOmega 1 c L [1] * t) ≠ 0 →
+            waveEnergy 1 2 L c #[ExactLinear.nyqState, ExactLinear.vzero (2 ^ 1)] = 0 ∧
+              0 < waveEnergy 1 2 L c (waveStep 1 2 ↑L ↑t ↑c #[ExactLinear.nyqState, ExactLinear.vzero (2 ^ 1)]) :=
+  @Exponax.WaveWhole.wave_energy_nyquist_fails
+
+
+
+/-! ### strictness and isometry: a positive-definite diffusivity strictly damps every non-constant mode; advection and
+dispersion preserve the grid 2-norm of EVERY real state on odd grids (the Hermitian condition of `C11_isometry_iff`
+discharged for the documented symbols) -/
+
+open Exponax.SmallGaps in
+theorem C11_re_diffusion_strict :
+    ∀ (c : Nonlin.Cfg ℂ),
+      1 ≤ c.D →
+        0 < c.N →
+          ∀ (s : ℝ),
+            c.s = ↑s →
+              s ≠ 0 →
+                ∀ h < Layout.numModes c.D c.N,
+                  h ≠ 0 →
+                    ∀ (A : ℕ → ℕ → ℝ),
+                      (∀ (x : Fin c.D → ℝ), x ≠ 0 → 0 < ∑ i : Fin c.D, ∑ j : Fin c.D, A ↑i ↑j * x i * x j) →
+                        (Nonlin.polySymbol c (quadTerms c.D fun i j ↦ ↑(A i j)) h).re < 0 :=
+  @Exponax.SmallGaps.diffusion_symbol_re_neg_stored
+
+open Exponax.SmallGaps in
+theorem C11_diffusion_mode_strictly_shrinks :
+    ∀ (c : Nonlin.Cfg ℂ),
+      1 ≤ c.D →
+        0 < c.N →
+          ∀ (s : ℝ),
+            c.s = ↑s →
+              s ≠ 0 →
+                ∀ h < Layout.numModes c.D c.N,
+                  h ≠ 0 →
+                    ∀ (A : ℕ → ℕ → ℝ),
+                      (∀ (x : Fin c.D → ℝ), x ≠ 0 → 0 < ∑ i : Fin c.D, ∑ j : Fin c.D, A ↑i ↑j * x i * x j) →
+                        ∀ (dt : ℝ),
+                          0 < dt →
+                            ∀ (u : ℂ),
+                              u ≠ 0 →
+                                ‖Gen.Etdrk.exp_term (↑dt) (Nonlin.polySymbol c (quadTerms c.D fun i j ↦ ↑(A i j)) h)‖ < 1 ∧
+                                  ‖Gen.Etdrk.E0step
+                                        (Gen.Etdrk.exp_term (↑dt)
+                                          (Nonlin.polySymbol c (quadTerms c.D fun i j ↦ ↑(A i j)) h))
+                                        u‖ <
+                                    ‖u‖ :=
+  @Exponax.SmallGaps.diffusion_mode_strictly_shrinks
+
+open Exponax.SmallGaps in
+theorem C11_advection_isometry_odd :
+    ∀ (c : Nonlin.Cfg ℂ),
+      0 < c.D →
+        c.N % 2 = 1 →
+          ∀ (s : ℝ),
+            c.s = ↑s →
+              ∀ (v : ℕ → ℝ) (u : Array ℂ),
+                (∀ j < c.N ^ c.D, (u.getD j 0).im = 0) →
+                  ∀ (dt : ℝ),
+                    ∑ j ∈ Finset.range (c.N ^ c.D),
+                        ((Transform.irfftnM c.D c.N
+                                  (Transform.tab (Layout.numModes c.D c.N) fun h ↦
+                                    Gen.Etdrk.E0step
+                                      (Gen.Etdrk.exp_term (↑dt)
+                                        (Nonlin.polySymbol c (pscale (-1) (gradInner c.D (fun d ↦ ↑(v d)) 1)) h))
+                                      ((Transform.rfftnM c.D c.N u).getD h 0))).getD
+                              j 0).re ^
+                          2 =
+                      ∑ j ∈ Finset.range (c.N ^ c.D), (u.getD j 0).re ^ 2 :=
+  @Exponax.SmallGaps.advection_isometry_odd
+
+open Exponax.SmallGaps in
+theorem C11_dispersion_isometry_odd :
+    ∀ (c : Nonlin.Cfg ℂ),
+      0 < c.D →
+        c.N % 2 = 1 →
+          ∀ (s : ℝ),
+            c.s = ↑s →
+              ∀ (ξ : ℕ → ℝ) (u : Array ℂ),
+                (∀ j < c.N ^ c.D, (u.getD j 0).im = 0) →
+                  ∀ (dt : ℝ),
+                    ∑ j ∈ Finset.range (c.N ^ c.D),
+                        ((Transform.irfftnM c.D c.N
+                                  (Transform.tab (Layout.numModes c.D c.N) fun h ↦
+                                    Gen.Etdrk.E0step
+                                      (Gen.Etdrk.exp_term (↑dt) (Nonlin.polySymbol c (gradInner c.D (fun d ↦ ↑(ξ d)) 3) h))
+                                      ((Transform.rfftnM c.D c.N u).getD h 0))).getD
+                              j 0).re ^
+                          2 =
+                      ∑ j ∈ Finset.range (c.N ^ c.D), (u.getD j 0).re ^ 2 :=
+  @Exponax.SmallGaps.dispersion_isometry_odd
+
 
 end Exponax
